@@ -841,6 +841,12 @@ func (s *Session) runOutputOncePacket() {
 		// To avoid deadlock, session can't be closed inside Ascend().
 		s.oLock.Lock()
 		var nextTX int64 = math.MaxInt64
+		// A peer that advertises a zero receive window is alive, but its
+		// application is not reading, and it has to drop the segments in
+		// flight. Resending them is probing the window. It is not a sign
+		// of a broken session. A peer that vanished is found by the idle
+		// session timeout.
+		peerWindowIsZero := s.remoteWindowSize.Load() == 0
 		s.sendBuf.Ascend(func(iter *segment) bool {
 			nextTX = mathext.Min(nextTX, iter.txTime+iter.txTimeout.Microseconds())
 
@@ -863,6 +869,9 @@ func (s *Session) runOutputOncePacket() {
 				}
 				iter.ackCount = 0
 				iter.txCount++
+				if peerWindowIsZero && iter.txCount > txCountLimit*3/4 {
+					iter.txCount = txCountLimit * 3 / 4
+				}
 				iter.txTime = time.Now().UnixMicro()
 				iter.txTimeout = mathext.Min(s.rttStat.RTO()*time.Duration(math.Pow(txTimeoutBackOff, float64(iter.txCount))), maxBackOffDuration)
 				if isDataAckProtocol(iter.metadata.Protocol()) {
